@@ -145,6 +145,7 @@ type BPlusKVPairReader struct {
 	prefix  byte
 	db      *btree.BTree
 	lastKey []byte
+	started bool
 }
 
 func NewBPlusKVPairReader(table storage.Table, db *btree.BTree) *BPlusKVPairReader {
@@ -163,11 +164,18 @@ func (r *BPlusKVPairReader) Read(buffer []*storage.KVPair) (n int, err error) {
 		}
 		key := i.(KVItem).Key
 
-		if bytes.Compare(key[:1], r.lastKey[:1]) == 0 && bytes.Compare(key, r.lastKey) != 0 {
-			buffer[n] = &storage.KVPair{key[1:], i.(KVItem).Value}
-			n++
+		if key[0] != r.prefix {
+			// end of this table: never walk into the next one
+			return false
 		}
+		if r.started && bytes.Equal(key, r.lastKey) {
+			// already returned by the previous Read
+			return true
+		}
+		buffer[n] = &storage.KVPair{key[1:], i.(KVItem).Value}
+		n++
 		r.lastKey = key
+		r.started = true
 		return true
 	})
 	return n, nil
